@@ -16,9 +16,10 @@ TIERS = {
     'quick': {'workers': 8, 'cases': 2800, 'timeout': 600},
     'thorough': {'workers': 16, 'cases': 20000, 'timeout': 3000},
 }
-OPS = ['parse', 'parse-fails', 'bind', 'call', 'finalize', 'finalize-rejected', 'unlock', 'singleton', 'constant', 'constant-interactive-overlap', 'enum', 'import']
+OPS = ['parse', 'parse-fails', 'bind', 'call', 'finalize', 'finalize-rejected', 'unlock', 'singleton', 'singleton-ctor-fails', 'constant',
+       'constant-interactive-overlap', 'enum', 'import', 'call-then-bind-then-call']
 REQUIRED_BUCKETS = ['op:' + o for o in OPS] + ['clear:keep-constants', 'clear:clear-constants', 'state:locked-at-clear', 'state:operative-nonempty-at-clear',
-                                                'state:imports-at-clear', 'state:singletons-at-clear', 'state:overlapping-constants-at-clear', 'rounds:2+', 'state:abbreviation-looked-up-before-clear']
+                                                'state:imports-at-clear', 'state:singletons-at-clear', 'state:overlapping-constants-at-clear', 'rounds:2+', 'state:abbreviation-looked-up-before-clear', 'state:failed-singleton-constructor-before-clear']
 ORACLE_COUNTERS = ['oracle_evals', 'clears_checked']
 _S = {}
 _n = itertools.count(1)
@@ -36,6 +37,10 @@ def setup(ctx):
 
   @gin.configurable('c20ctor', module='c20')
   def ctor():
+    return object()
+
+  @gin.configurable('c20badctor', module='c20')
+  def badctor(must_be_bound):       # fails unless a binding exists
     return object()
 
   @gin.configurable('c20use', module='c20')
@@ -76,6 +81,8 @@ def run_case(ctx, case):
   for rnd in case['rounds']:
     bound_keys = []
     short_names = []
+    used_scopes = set()
+    failed_singleton = False
     pre_singleton = None
     overlapping = False
     for op in rnd['ops']:
@@ -96,6 +103,7 @@ def run_case(ctx, case):
           gin.bind_parameter('a/b/c20f.x', object() if k % 3 == 0 else k)
           bound_keys += ['a/b/c20f.x']
         elif op == 'call':
+          used_scopes.add(['sc', 'a/b', ''][k % 3])
           with gin.config_scope(['sc', 'a/b', ''][k % 3] or None):
             try:
               f.conf()
@@ -124,6 +132,36 @@ def run_case(ctx, case):
             gin.parse_config(SINGLETON_CONFIG)
           pre_singleton = use()
           bound_keys += ['c20use.s']
+        elif op == 'singleton-ctor-fails':
+          with gin.unlock_config():
+            gin.parse_config('shared/gin.singleton.constructor = @c20badctor\ndeep/er/gin.singleton.constructor = @c20badctor\n'
+                             'c20use.s = [@shared/gin.singleton(), @deep/er/gin.singleton()]\n')
+          try:
+            use()
+          except TypeError:
+            pass
+          failed_singleton = True
+          bound_keys += ['c20use.s']
+        elif op == 'call-then-bind-then-call':
+          sc = ['sc', 'a/b', 'x/y/z'][k % 3]
+          with gin.config_scope(sc):
+            try:
+              f.conf()
+              g.conf()
+            except TypeError:
+              pass
+          with gin.unlock_config():
+            gin.bind_parameter('%s/c20f.x' % sc, k)
+            gin.bind_parameter('c20g.a', -k)
+          with gin.config_scope(sc):
+            try:
+              f.conf()
+              g.conf()
+              gin.get_bindings('c20.c20f')
+            except TypeError:
+              pass
+          bound_keys += ['%s/c20f.x' % sc, 'c20g.a']
+          used_scopes.add(sc)
         elif op == 'constant':
           gin.constant('c20.k%d.CONST%d' % (k, k), ('const', k))
           # look it up through abbreviations, as config files do
@@ -186,11 +224,29 @@ def run_case(ctx, case):
           ctx.check(False, 'binding-survived-clear', 'query_parameter(%r) still answers after clear_config' % key)
         except ValueError:
           ctx.count('oracle_evals')
-      mark = probes.RECORDER.mark()
-      f.conf()
-      g.conf()
-      recs = probes.RECORDER.since(mark)
-      ctx.check([r.received for r in recs] == [{'x': 0, 'y': 'd'}, {'a': 1}], 'probe-received-non-default-after-clear', 'probes received %r' % [r.received for r in recs])
+      for sc in sorted(used_scopes | {''}):
+        mark = probes.RECORDER.mark()
+        with gin.config_scope(sc or None):
+          f.conf()
+          g.conf()
+          gb = gin.get_bindings('c20.c20f')
+        recs = probes.RECORDER.since(mark)
+        ctx.check([r.received for r in recs] == [{'x': 0, 'y': 'd'}, {'a': 1}] and gb == {}, 'probe-received-non-default-after-clear',
+                  'after clear_config, under scope %r probes received %r, get_bindings %r' % (sc, [r.received for r in recs], gb))
+      # what those calls recorded is what they record in a pristine process: the signature defaults
+      op_text = gin.operative_config_str()
+      vals = sorted(set(l.split(' = ', 1)[1] for l in op_text.splitlines() if ' = ' in l and not l.startswith('#')))
+      ctx.check(vals == sorted(["'d'", '0', '1']), 'operative-record-after-clear-shows-old-values',
+                'after clear_config a plain call records values other than the signature defaults: %r\n%s' % (vals, op_text[:500]))
+      if failed_singleton:
+        ctx.bucket('state:failed-singleton-constructor-before-clear')
+        gin.clear_config(clear_constants=cc)
+        gin.parse_config(SINGLETON_CONFIG)
+        try:
+          ok = all(o is not None for o in use())
+        except Exception as e:  # pylint: disable=broad-except
+          ok = False
+          ctx.check(False, 'singleton-unusable-after-clear', 'a singleton whose constructor failed before clear_config cannot be constructed afterwards: %r' % (e,))
       if pre_singleton is not None:
         gin.parse_config(SINGLETON_CONFIG)
         again = use()
